@@ -131,6 +131,27 @@ theorem tr_bar_rounding (M : K) (bs : List (Bar K)) (hbs : ∀ b ∈ bs, BarLe M
   obtain ⟨s', h⟩ := Props.C02.tr_bar_stream (F := R K) (bs.map barR)
   exact ⟨s', _, h, tr_bar_rounding_spec M bs hbs, trBarSeqK_bound M bs hbs⟩
 
+/-- the exact ATR of a stream of bars bounded by `M` is bounded by `2M` -/
+theorem atrBarSeqK_bound (n : Nat) (hn : 0 < n) (M : K) (bs : List (Bar K)) (hbs : ∀ b ∈ bs, BarLe M b) :
+    ∀ w ∈ atrBarSeqK n bs, |w| ≤ 2 * M := by
+  obtain ⟨ha0, ha1, _, _⟩ := period_facts (K := K) n hn
+  exact emaSeqK_bound _ (2 * M) ha0.le ha1 _ (trBarSeqK_bound M bs hbs)
+
+/-- ATR over bars, specification form: within `(12·N + 3)·u·M` of the exact ATR -/
+theorem atr_bar_rounding_spec (n : Nat) (hn : 0 < n) (M : K) (bs : List (Bar K))
+    (hbs : ∀ b ∈ bs, BarLe M b) (hNu : ((n : K) + 1) * u ≤ 1 / 64) :
+    List.Forall₂ (fun (y : R K) (z : K) => |y.v - z| ≤ (12 * ((n : K) + 1) + 3) * u * M)
+      (Props.C02.emaSeq (Props.C02.alpha n : R K) (Props.C02.trBarSeq (bs.map barR))) (atrBarSeqK n bs) := by
+  cases bs with
+  | nil => exact List.Forall₂.nil
+  | cons b bs =>
+    have hM0 : 0 ≤ M := le_trans (abs_nonneg _) (hbs b (by simp)).1
+    have hp := ema_pert_spec n hn (2 * M) (2 * u * M) _ _ (tr_bar_rounding_spec M (b :: bs) hbs)
+      (fun w hw => trBarSeqK_bound M (b :: bs) hbs w hw) hNu
+    refine hp.imp ?_
+    intro y z hyz
+    exact le_trans hyz (atr_const _ M hM0 (two_le_succ n hn) hNu)
+
 /-- **AverageTrueRange rounding-error theorem, BAR path** (standard model; generated code):
     period `n ≥ 1` with `(n+1)·u ≤ 1/64`, any bound `M`, any stream of bars (any length) with
     `|high|, |low|, |close| ≤ M`: the generated ATR never panics and every output is within
@@ -142,15 +163,64 @@ theorem atr_bar_rounding (n : Nat) (hn : 0 < n) (M : K) (bs : List (Bar K))
       List.Forall₂ (fun (y : R K) (z : K) => |y.v - z| ≤ (12 * ((n : K) + 1) + 3) * u * M)
         ys (atrBarSeqK n bs) := by
   obtain ⟨s', h⟩ := Props.C02.atr_bar_stream (F := R K) n (bs.map barR)
-  refine ⟨s', _, h, ?_⟩
-  cases bs with
-  | nil => exact List.Forall₂.nil
-  | cons b bs =>
-    have hM0 : 0 ≤ M := le_trans (abs_nonneg _) (hbs b (by simp)).1
-    have hp := ema_pert_spec n hn (2 * M) (2 * u * M) _ _ (tr_bar_rounding_spec M (b :: bs) hbs)
-      (fun w hw => trBarSeqK_bound M (b :: bs) hbs w hw) hNu
-    refine hp.imp ?_
-    intro y z hyz
-    exact le_trans hyz (atr_const _ M hM0 (two_le_succ n hn) hNu)
+  exact ⟨s', _, h, atr_bar_rounding_spec n hn M bs hbs hNu⟩
+
+/-! ## KeltnerChannel, bar path -/
+
+/-- the computed typical price `fl(fl(fl(close + high) + low) / fl 3)` of a bar -/
+def tpv (b : Bar K) : K := (Props.C02.typical (barR b)).v
+
+/-- **KeltnerChannel rounding-error theorem, BAR path** (standard model; generated code).
+    Period `n ≥ 1` with `(n+1)·u ≤ 1/64`, multiplier `m` (any sign), any bound `M`, any stream of
+    bars (any length) with `|high|, |low|, |close| ≤ M` and computed typical price within `M`:
+    the generated KeltnerChannel never panics and for every output triple
+      * `average` is within `6·(n+1)·u·M` of the exact EMA of the computed typical prices,
+      * `upper` / `lower` are within `(6·(n+1) + 2 + (12·(n+1) + 8)·|m|)·u·M` of that EMA `±` the
+        exact ATR (exact EMA of the exact bar true range) times `m`. -/
+theorem kc_bar_rounding (n : Nat) (hn : 0 < n) (m M : K) (bs : List (Bar K))
+    (hbs : ∀ b ∈ bs, BarLe M b) (htp : ∀ b ∈ bs, |tpv b| ≤ M) (hNu : ((n : K) + 1) * u ≤ 1 / 64) :
+    ∃ s' ys, runOut KeltnerChannel.nextBar
+        (KeltnerChannel.fresh n (R.mk m) : KeltnerChannel (R K)) (bs.map barR) = some (s', ys) ∧
+      List.Forall₂ (fun (y : R K) (z : K) => |y.v - z| ≤ 6 * ((n : K) + 1) * u * M)
+        (ys.map (·.average)) (emaSeqK (2 / ((n : K) + 1)) (bs.map tpv)) ∧
+      List.Forall₂ (fun (y : R K) (z : K) =>
+          |y.v - z| ≤ (6 * ((n : K) + 1) + 2 + (12 * ((n : K) + 1) + 8) * |m|) * u * M)
+        (ys.map (·.upper))
+        (List.zipWith (fun A T => A + T * m) (emaSeqK (2 / ((n : K) + 1)) (bs.map tpv)) (atrBarSeqK n bs)) ∧
+      List.Forall₂ (fun (y : R K) (z : K) =>
+          |y.v - z| ≤ (6 * ((n : K) + 1) + 2 + (12 * ((n : K) + 1) + 8) * |m|) * u * M)
+        (ys.map (·.lower))
+        (List.zipWith (fun A T => A - T * m) (emaSeqK (2 / ((n : K) + 1)) (bs.map tpv)) (atrBarSeqK n bs)) := by
+  obtain ⟨s', h⟩ := Props.C02.kc_bar_stream (F := R K) n (R.mk m) (bs.map barR)
+  obtain ⟨ha0, ha1, _, _⟩ := period_facts (K := K) n hn
+  have htp' : ∀ x ∈ bs.map tpv, |x| ≤ M := by
+    intro x hx
+    obtain ⟨b, hb, rfl⟩ := List.mem_map.mp hx
+    exact htp b hb
+  have emap : (bs.map tpv).map R.mk = (bs.map barR).map Props.C02.typical := by
+    simp only [List.map_map]
+    rfl
+  have hA0 : List.Forall₂ (fun (y : R K) (z : K) => |y.v - z| ≤ 6 * ((n : K) + 1) * u * M)
+      (Props.C02.emaSeq (Props.C02.alpha n : R K) ((bs.map barR).map Props.C02.typical))
+      (emaSeqK (2 / ((n : K) + 1)) (bs.map tpv)) := by
+    rw [← emap]; exact ema_rounding_spec n hn M (bs.map tpv) htp' hNu
+  have hA := forall₂_and_right hA0 (emaSeqK_bound _ M ha0.le ha1 _ htp')
+  have hT := forall₂_and_right (atr_bar_rounding_spec n hn M bs hbs hNu) (atrBarSeqK_bound n hn M bs hbs)
+  have hlen : (Props.C02.emaSeq (Props.C02.alpha n : R K) ((bs.map barR).map Props.C02.typical)).length
+      = (Props.C02.emaSeq (Props.C02.alpha n : R K) (Props.C02.trBarSeq (bs.map barR))).length := by
+    simp [Props.C02.emaSeq_length, Props.C02.trBarSeq_length]
+  refine ⟨s', _, h, ?_, ?_, ?_⟩
+  · rw [map_zipWith_left (fun _ _ => rfl) _ _ hlen]
+    exact hA0
+  · rw [List.map_zipWith]
+    refine forall₂_zipWith ?_ hA hT
+    intro a A r T haA hrT
+    simp only [R.add_v, R.mul_v, R.mk_v]
+    exact (band_err _ _ _ _ _ m M (two_le_succ n hn) hNu haA.1 haA.2 hrT.1 hrT.2).1
+  · rw [List.map_zipWith]
+    refine forall₂_zipWith ?_ hA hT
+    intro a A r T haA hrT
+    simp only [R.sub_v, R.mul_v, R.mk_v]
+    exact (band_err _ _ _ _ _ m M (two_le_succ n hn) hNu haA.1 haA.2 hrT.1 hrT.2).2
 
 end TaRs.Round.ATRBar
